@@ -171,11 +171,13 @@ CHECKS["C18"] = dict(
          "partial_resolve), an arbitrary requirement predicate (one Boolean per artifact) and every os x arch query. The solver decides "
          "that the result matches all three criteria and no matching artifact is strictly greater, and None <=> nothing matches. "
          "Checksum::from_str is decided on strings of unbounded length against `sha256:<hex>` with the digest length scaled down to 2 / 4 "
-         "bytes; parse(render(c)) == c.",
+         "bytes; parse(render(c)) == c. Round trip: the derived Serialize of Inventory/Artifact/Os/Arch (+ Checksum's own) turns an inventory "
+         "of 0..2 artifacts (version, url, optional metadata as SMT strings; every os/arch; arbitrary digest) into a document and the derived "
+         "Deserialize turns it back into equal artifacts.",
     design_ref="DESIGN.md §5 C18",
     technique="symbolic execution of rustc MIR (mirsym) with version ranks and the requirement as SMT variables + z3 (strings/regex for checksums); witness replay on the real crate",
     note="Lawful Ord/PartialOrd assumed; hex::decode/encode summarised by their contract; real digest lengths (32/64 bytes) exceed what the string "
-         "solver decides in time (scaled-down lengths stated); Inventory<->TOML round trip not covered yet. " + BASE_NOTE)
+         "solver decides in time (scaled-down lengths stated); the round trip is on document trees (text layer via replay only). " + BASE_NOTE)
 
 CHECKS["C17"] = dict(
     text="Bounded model checking from MIR of the argument assembly `From<DockerRunCommand> for Command` (with mount_csv_field), "
